@@ -253,9 +253,23 @@ def semantic_variants(case, info, rnd):
         c['mutation'] = {'kind': tag}
         out.append(c)
 
+    # E1: an unresolvable label in every position a label may appear in (incl. zero-count fills, muted lines)
+    e1_forms = ['  .2byte undefd', '  .byte nolbl9 + 1', '  .fill 2, nowhere', '  .fill 0, nowhere', '  .fill nowhere, 1',
+                '  .zero nowhere', '  .zerountil nowhere', '  .org nowhere', '  .4byte 1, nowhere', '  .8byte nowhere',
+                '  .byte LSB(nowhere)', '  .byte 1, 2, (nowhere)', '  .fill (4 - 4) * 2, nowhere * 2',
+                '  .byte .nolocal', '  .2byte _nofile']
+    for form in rnd.sample(e1_forms, 4):
+        insert(form, 'E1-unresolved-label')
+    c = copy.deepcopy(case)
+    pos = rnd.randrange(0, n)
+    c['prog'][pos:pos] = ['#mute']
+    c['inject'] = {'pos': pos + 1, 'line': rnd.choice(e1_forms[:4])}
+    c['prog'].insert(pos + 1, '#unmute')
+    c['expect_fail'] = 'E1-unresolved-label-in-muted-line'
+    c['mutation'] = {'kind': 'E1-muted'}
+    out.append(c)
     for _ in range(2):
-        insert(rnd.choice(['  .2byte undefd', '  .byte nolbl9 + 1', '  .fill 2, nowhere']), 'E1-unresolved-label')
-        insert(rnd.choice(['  zzq 5', '  qqz', '  zzq a, 3']), 'E2-unknown-instruction')
+        insert(rnd.choice(['  zzq 5', '  qqz', '  zzq a, 3', '  .bite 5', '  .fil 2, 1']), 'E2-unknown-instruction')
     # E1 by renaming an existing reference
     labels = [m.group(1) for ln in prog for m in [re.match(r'^(\w+):', ln)] if m]
     for lab in labels[:2]:
@@ -271,6 +285,19 @@ def semantic_variants(case, info, rnd):
     allops = dict(info['sigs'])
     allops.update(info['macros'])
     ms = sorted(allops)
+    lab_ops = [(m, ops) for m, vs in allops.items() for ops in vs if any(k in ('n8', 'n16', 'm16', 'n12') for k in ops)]
+    if lab_ops:
+        pg0 = gen.ProgGen(random.Random(rnd.random()), info)
+        m, ops = rnd.choice(lab_ops)
+        done = False
+        texts = []
+        for k in ops:
+            if not done and k in ('n8', 'n16', 'm16', 'n12'):
+                texts.append('[nowhere]' if k == 'm16' else 'nowhere')
+                done = True
+            else:
+                texts.append(pg0.operand(k))
+        insert(f'  {m} ' + ', '.join(texts), 'E1-unresolved-label-in-operand')
     for _ in range(2):
         m = rnd.choice(ms)
         cnt = max(len(v) for v in allops[m])
